@@ -219,7 +219,7 @@ func (m *mixed) Gen(w *e.World, r *e.RNG) e.Step {
 		}
 		return e.Step{K: "crash", A: i}
 	case "govevm":
-		return e.Step{K: "gov", N: []int64{int64(r.Weighted([]int{4, 2, 3, 1})), r.Range(0, 7)}}
+		return e.Step{K: "gov", N: []int64{int64(r.Weighted([]int{4, 2, 3, 1, 2})), r.Range(0, 7)}}
 	case "stall":
 		if len(w.Reps) < 2 {
 			return genBlk(w, r)
